@@ -666,6 +666,11 @@ def _power_shape_cases(ctx, model, dm):
                 return "I"
             if subj == INNER and cls == "int":
                 return "J"
+        if v[0] == "compare" and len(v[1]) == 1 and v[2] == EXPO and \
+                v[3][0] == ("const", 0) and v[1][0] in ("Eq", "NotEq"):
+            return "Z" if v[1][0] == "Eq" else ("Z", True)
+        if v[0] == "call" and v[1] == "is_zero" and v[2] == (EXPO,):
+            return "Z"
         if v[0] == "compare" and len(v[1]) == 1 and v[2] in (EXPO, INNER) and \
                 v[3][0][0] == "const" and isinstance(v[3][0][1], int):
             op, k = v[1][0], v[3][0][1]
@@ -690,8 +695,8 @@ def _power_shape_cases(ctx, model, dm):
 
     pss = [ps for ps in handler_summaries(model, model.nodes.get("Power"),
                                           mp.node, loop_mode="1")]
-    atoms = ["Product", "Sum", "Power", "I", "G", "J", "H"]
-    kept = {"Product": [], "Sum": [], "Power": []}
+    atoms = ["Product", "Sum", "Power", "I", "G", "J", "H", "Z"]
+    kept = {"Product": [], "Sum": [], "Power": [], "Zero": []}
     n_asg = 0
     try:
         for bits in itertools.product((False, True), repeat=len(atoms)):
@@ -702,6 +707,8 @@ def _power_shape_cases(ctx, model, dm):
                 continue
             if (asg["G"] and not asg["I"]) or (asg["H"] and not asg["J"]):
                 continue
+            if asg["Z"] and (asg["G"] or not asg["I"]):
+                continue        # zero is an integer and not positive
             sel = [ps for ps in pss
                    if all(bool_eval(c, atom_of, asg) == pol
                           for _, pol, c in ps.conds if isinstance(c, tuple))]
@@ -711,7 +718,11 @@ def _power_shape_cases(ctx, model, dm):
             ps = sel[0]
             if ps.term != "return" or not keeps(ps.retval):
                 continue
-            # the polynomial fragment: positive integer exponents
+            # exponent 0: (x + 1)**0 is the polynomial 1, a sum kept beneath
+            # it is a sum beneath an integer power
+            if asg["Z"] and asg["Sum"]:
+                kept["Zero"].append(asg)
+            # the polynomial fragment otherwise: positive integer exponents
             if not asg["G"]:
                 continue
             if asg["Product"]:
@@ -746,6 +757,12 @@ def _power_shape_cases(ctx, model, dm):
                  "expand((x**2)**3 + x**6) keeps (x**2)**3 and x**6 apart "
                  "instead of merging the like terms",
     }
+    ctx.ob("P/DistributeMapper/map_power/sum-to-the-zero-rewritten",
+           not kept["Zero"], where(mp),
+           "a sum to the power 0 is not kept" if not kept["Zero"] else
+           "DistributeMapper.map_power keeps (sum)**0 as it is: "
+           "expand(y*(x + 1)**0) is y*(1 + x)**0, a sum beneath an integer "
+           "power, where expand(y) is y")
     for k in ("Product", "Sum", "Power"):
         ctx.ob(f"P/DistributeMapper/map_power/mapped-base-{k}-rewritten",
                not kept[k], where(mp),
